@@ -527,6 +527,7 @@ int vh_gwhich(const void *addr, long *rel, int *is_guard)
 }
 
 int (*vh_fault_describe_hook)(const void *addr, char *buf, size_t n);
+static int ro_describe(const void *addr, char *buf, size_t n);
 
 static void fault_handler(int sig, siginfo_t *si, void *uc)
 {
@@ -536,7 +537,7 @@ static void fault_handler(int sig, siginfo_t *si, void *uc)
     if (a >= 0)
         snprintf(g_fault_info, sizeof(g_fault_info), "sig %d addr in guard arena %d, offset %ld relative to buffer start (buffer length %lu)%s",
                  sig, a, rel, (unsigned long)(ga[a].hi - ga[a].lo), isg ? " [PROT_NONE guard page]" : "");
-    else if (vh_fault_describe_hook && vh_fault_describe_hook(si->si_addr, g_fault_info + 32, sizeof(g_fault_info) - 32)) {
+    else if ((vh_fault_describe_hook && vh_fault_describe_hook(si->si_addr, g_fault_info + 32, sizeof(g_fault_info) - 32)) || ro_describe(si->si_addr, g_fault_info + 32, sizeof(g_fault_info) - 32)) {
         int k = snprintf(g_fault_info, 32, "sig %d: ", sig);
         memmove(g_fault_info + k, g_fault_info + 32, strlen(g_fault_info + 32) + 1);
     } else
@@ -559,6 +560,34 @@ void vh_install_fault_handler(void)
     sigaction(SIGBUS, &sa, NULL);
     if (!g_fault_shared)
         g_fault_shared = mmap(NULL, 4096, PROT_READ | PROT_WRITE, MAP_SHARED | MAP_ANONYMOUS, -1, 0);
+}
+
+#define RO_SLOTS 4
+static uint8_t *ro_page[RO_SLOTS]; static size_t ro_off[RO_SLOTS];
+const void *vh_ro_copy(int slot, const void *obj, size_t n)
+{
+    uint8_t *p;
+    if (n > 3 * PG) { fprintf(stderr, "vh_ro_copy: object too large\n"); exit(2); }
+    if (!ro_page[slot]) {
+        ro_page[slot] = mmap(NULL, 4 * PG, PROT_READ | PROT_WRITE, MAP_PRIVATE | MAP_ANONYMOUS, -1, 0);
+        if (ro_page[slot] == MAP_FAILED) { fprintf(stderr, "vh_ro_copy: mmap failed\n"); exit(2); }
+    } else mprotect(ro_page[slot], 4 * PG, PROT_READ | PROT_WRITE);
+    ro_off[slot] = (ro_off[slot] + 64) % 1024;            /* a different (still 64-byte aligned) address each time */
+    p = ro_page[slot] + ro_off[slot];
+    memcpy(p, obj, n);
+    mprotect(ro_page[slot], 4 * PG, PROT_READ);
+    return p;
+}
+void vh_ro_release(int slot) { if (ro_page[slot]) mprotect(ro_page[slot], 4 * PG, PROT_READ | PROT_WRITE); }
+static int ro_describe(const void *addr, char *buf, size_t n)
+{
+    int s;
+    for (s = 0; s < RO_SLOTS; ++s)
+        if (ro_page[s] && (const uint8_t *)addr >= ro_page[s] && (const uint8_t *)addr < ro_page[s] + 4 * PG) {
+            snprintf(buf, n, "WRITE to the read-only relocated copy of a key schedule / object passed by pointer-to-const (slot %d, offset %ld)", s, (long)((const uint8_t *)addr - ro_page[s] - (long)ro_off[s]));
+            return 1;
+        }
+    return 0;
 }
 
 __attribute__((noinline)) void vh_paint_stack(int v, size_t n)
